@@ -4,7 +4,7 @@
 Require Import Grits.Base Grits.STypes Grits.Forms Grits.TcDeps Grits.Tc Grits.TcTop Grits.spec.Typing
                Grits.proofs.TcLemmas Grits.proofs.TypingSound Grits.proofs.TypingSoundTop
                Grits.proofs.TypingComplete Grits.proofs.TypingCompleteTop Grits.proofs.TypingVerdict
-               Grits.spec.SynOk Grits.proofs.TypingBisim.
+               Grits.spec.SynOk Grits.proofs.TypingBisim Grits.proofs.Acyclic.
 
 Theorem C07_unfold_spec : forall D t h, unfold D t = Ok (Some h) <-> head D t h.
 Proof. exact unfold_spec. Qed.
@@ -47,6 +47,12 @@ Theorem C07_well_typed_not_rejected_bisim : forall p, prog_syn_ok p = true -> Pr
   typecheck p <> Reject /\ (forall w, typecheck p <> RejectInternal w) /\ (forall w, typecheck p <> Diverge w).
 Proof. exact well_typed_not_rejected_bisim. Qed.
 
+(* the acyclicity condition of ProgOKe (stated with the marking iteration) means: the "uses" relation
+   among the process declarations is well founded *)
+Theorem C07_acyclic_spec : forall ps, NoDup (all_providers ps) -> (deps_acyclic ps = true <-> ProcsGrounded ps).
+Proof. exact procs_grounded_iff. Qed.
+
+Print Assumptions C07_acyclic_spec.
 Print Assumptions C07_verdict_bisim.
 Print Assumptions C07_sound_bisim.
 Print Assumptions C07_complete_bisim.
